@@ -437,6 +437,10 @@ is_trivially_copyable() const {
  */
 bool CPPStructType::
 is_constructible(const CPPType *given_type) const {
+  if (is_abstract()) {
+    return false;
+  }
+
   // Does the type match the copy constructor or move constructor?
   CPPType *base_type = ((CPPType *)given_type)->remove_reference();
   if (is_equivalent(*base_type->remove_cv())) {
@@ -447,10 +451,6 @@ is_constructible(const CPPType *given_type) const {
     } else {
       return is_copy_constructible(V_public);
     }
-  }
-
-  if (is_abstract()) {
-    return false;
   }
 
   // Check for a different constructor.
@@ -495,6 +495,11 @@ is_constructible(const CPPType *given_type) const {
  */
 bool CPPStructType::
 is_default_constructible() const {
+  // An abstract class cannot be created as a complete object (it can as the
+  // base-class sub-object of a derived class, see the overload below).
+  if (is_abstract()) {
+    return false;
+  }
   return is_default_constructible(V_public);
 }
 
@@ -503,6 +508,9 @@ is_default_constructible() const {
  */
 bool CPPStructType::
 is_copy_constructible() const {
+  if (is_abstract()) {
+    return false;
+  }
   return is_copy_constructible(V_public);
 }
 
@@ -530,10 +538,6 @@ is_destructible() const {
  */
 bool CPPStructType::
 is_default_constructible(CPPVisibility min_vis) const {
-  if (is_abstract()) {
-    return false;
-  }
-
   CPPInstance *constructor = get_default_constructor();
   if (constructor != nullptr) {
     // It has a default constructor.
@@ -596,10 +600,6 @@ is_default_constructible(CPPVisibility min_vis) const {
  */
 bool CPPStructType::
 is_copy_constructible(CPPVisibility min_vis) const {
-  if (is_abstract()) {
-    return false;
-  }
-
   CPPInstance *constructor = get_copy_constructor();
   if (constructor != nullptr) {
     // It has a copy constructor.
@@ -682,10 +682,6 @@ is_move_constructible(CPPVisibility min_vis) const {
 
     if (constructor->_storage_class & CPPInstance::SC_deleted) {
       // It is deleted.
-      return false;
-    }
-
-    if (is_abstract()) {
       return false;
     }
 
